@@ -7,7 +7,7 @@ ASSUME = [
     "returned, the harness tears the stream down (break + cancellation of stream and call contexts) and then demands return within another "
     "2.5 s of inactivity; a hang is confirmed by two goroutine dumps 1.5 s apart showing the same fsutil frames",
     "stream operation faults break the whole stream (both directions) from that operation on; cancellation cancels the call's context and the stream's context of that side",
-    "SIGKILL of the receiving process is not covered in this round (the receiver runs in-process)",
+    "SIGKILL: the receiver runs as a child process over real pipes (util.NewProtoStream) and is killed after the sender's k-th SendMsg; the packet-level monitor does not see inside that run, only its outcome (Killed event) and the follow-up transfer",
 ]
 PFX = {"C04", "C01"}
 
